@@ -11,7 +11,7 @@ SPEC = {
                 6: "octet counters are reported exactly through the low-word/gigaword split"},
     "driver_timeout": 2400,
     "driver_args": ["-shard", "60"],
-    "rule": "a case = one history of <=3 sessions (Start/Stop/interim tick/queue step/retry tick/graceful stop/kill/restart/Final observation) with a per-op set of (session,status) requests the scripted UDP RADIUS server drops and a crash countdown (the k-th verifCrashPoint marker inside the op calls os.Exit(137) in the WORKER SUBPROCESS that hosts the real AccountingManager; restart = fresh worker on the same directory); streams: corpus (witnesses), enum (exhaustive: one session x every Start/Stop drop pattern x every crash point of every op x restart up/down; thorough adds interim on/off and two sessions in all 6 call orders x 16 drop patterns x every crash point), guarded (crash-free random histories: clause 4 holds by theorem), cases (random, up to 3 sessions); distinct = distinct case terms",
+    "rule": "a case = one history of <=3 sessions (Start/Stop/interim tick/queue step/retry tick/graceful stop/kill/restart/Final observation) with a per-op set of (session,status) requests the scripted UDP RADIUS server drops and a crash countdown (the k-th verifCrashPoint marker inside the op calls os.Exit(137) in the WORKER SUBPROCESS that hosts the real AccountingManager; restart = fresh worker on the same directory); streams: corpus (witnesses), enum (exhaustive: one session x every Start/Stop drop pattern x every crash point of every op x restart up/down; thorough adds interim on/off and two sessions in all 6 call orders x 16 drop patterns x every crash point), orphans (exhaustive family: 2 and 3 live sessions with acknowledged Starts and written files, process death by kill / inside StopSession / inside the interim scan (thorough: inside the drain, inside a further StartSession), restart with EVERY recovery Stop dropped (or all but one) so that several Stops are queued in one recovery pass, then server up, queue steps and retry scan in both orders, Final), guarded (crash-free random histories: clause 4 holds by theorem), cases (random, up to 3 sessions); distinct = distinct case terms",
     "assumptions": [
         "os.WriteFile / os.Remove are atomic and durable in the Model (no torn writes, no fsync modelling)",
         "real-time tickers (1 s retry, 10 s interim) are replaced by harness-driven single steps; every pending record and every session is always due (RetryBaseDelay = RetryMaxDelay = DefaultInterimInterval = 1 ns)",
